@@ -225,7 +225,7 @@ func (s *SoftwrapScanner) Scan() bool {
 	// Clear token
 	s.token = []vaxis.Cell{}
 
-	var w uint16
+	var w int
 	for {
 		seg, br := firstLineSegment(s.rest)
 		rest := []vaxis.Cell{}
@@ -235,8 +235,8 @@ func (s *SoftwrapScanner) Scan() bool {
 
 		var (
 			word     []vaxis.Cell
-			wordLen  uint16
-			spaceLen uint16
+			wordLen  int
+			spaceLen int
 		)
 
 		// "TrimRight"
@@ -254,25 +254,25 @@ func (s *SoftwrapScanner) Scan() bool {
 		// Trailing space is anything after word
 		trSpace := seg[len(word):]
 		for _, ch := range word {
-			wordLen += uint16(ch.Width)
+			wordLen += ch.Width
 		}
 		for _, ch := range trSpace {
-			spaceLen += uint16(ch.Width)
+			spaceLen += ch.Width
 		}
 
 		// This word is longer than the line. We have to break on
 		// graphemes
-		if wordLen > s.width {
+		if wordLen > int(s.width) {
 			s.rest = []vaxis.Cell{}
 			// Append characters to token until we reach the end
 			for _, char := range word {
-				if w >= s.width {
+				if w >= int(s.width) {
 					// Append the rest to rest
 					s.rest = append(s.rest, char)
 					continue
 				}
 				s.token = append(s.token, char)
-				w += uint16(char.Width)
+				w += char.Width
 			}
 			// Append the trailing space
 			s.rest = append(s.rest, trSpace...)
@@ -282,7 +282,7 @@ func (s *SoftwrapScanner) Scan() bool {
 		}
 
 		// Check if this segment fits. If it doesn't we are done
-		if w+wordLen > s.width {
+		if w+wordLen > int(s.width) {
 			return true
 		}
 
@@ -305,7 +305,7 @@ func (s *SoftwrapScanner) Scan() bool {
 		w += wordLen
 
 		// If the space doesn't fit, we return now
-		if w+spaceLen > s.width {
+		if w+spaceLen > int(s.width) {
 			return true
 		}
 
